@@ -3,6 +3,7 @@ package gen
 
 import (
 	"fmt"
+	"regexp"
 	"strconv"
 	"strings"
 
@@ -63,7 +64,7 @@ func quote(s string) string {
 // Quote renders a yq double-quoted string literal.
 func Quote(s string) string { return quote(s) }
 
-var nums = []string{"0", "1", "2", "3", "-1", "-2", "-5", "7", "10", "255", "1000", "65536", "2147483648", "9223372036854775807", "-9223372036854775808", "9223372036854775808", "18446744073709551616",
+var nums = []string{"0", "1", "2", "3", "-1", "-2", "-5", "7", "10", "255", "1000", "-1000", "4096", "65536", "2147483648", "9223372036854775807", "-9223372036854775808", "9223372036854775808", "18446744073709551616",
 	"0.5", "1.5", "-0.0", "1e3", "1e400", "0x1F", "0x7fffffffffffffff", "0xFFFFFFFFFFFFFFFFFF", "3.0", "2.5e-3"}
 
 func lit(t *rapid.T) string {
@@ -88,7 +89,7 @@ func pathElem(t *rapid.T) string {
 	case 0, 1, 2, 3:
 		return "." + rapid.SampledFrom(Keys[:10]).Draw(t, "k")
 	case 4:
-		return ".[" + rapid.SampledFrom(nums[:14]).Draw(t, "i") + "]"
+		return ".[" + rapid.SampledFrom(nums[:13]).Draw(t, "i") + "]"
 	case 5:
 		return ".[]"
 	case 6:
@@ -418,4 +419,50 @@ func luaLoose(t *rapid.T, depth int) string {
 		}
 	}
 	return "{" + strings.Join(parts, rapid.SampledFrom([]string{", ", "; ", ",\n"}).Draw(t, "sep")) + rapid.SampledFrom([]string{"", ","}).Draw(t, "tr") + "}"
+}
+
+// ---------------------------------------------------------------------------
+// Generator bound (stated in DESIGN.md, C11): a sequence index is an explicit
+// request for a sequence at least that long, so `.[N] = v` (and, in a writable
+// context, even reading `.[N]`) allocates N nodes. Indices are therefore kept
+// <= 65536: when an expression can turn a number into an index (dynamic index,
+// setpath, pick) every literal above that bound is replaced.
+
+var hugeLit = regexp.MustCompile(`0[xX][0-9A-Fa-f]{5,}|\d{6,}|\d(\.\d+)?[eE]\+?\d+`)
+var staticIdx = regexp.MustCompile(`^(-?\d{1,5}|"[^"]*"|-?\d{0,5}:-?\d{0,5}|)$`)
+
+func hasDynamicIndex(e string) bool {
+	if strings.Contains(e, "setpath") || strings.Contains(e, "set_path") || strings.Contains(e, "pick") {
+		return true
+	}
+	for i := 0; i+1 < len(e); i++ {
+		if e[i] == '.' && e[i+1] == '[' {
+			depth, j := 0, i+1
+			for ; j < len(e); j++ {
+				if e[j] == '[' {
+					depth++
+				} else if e[j] == ']' {
+					depth--
+					if depth == 0 {
+						break
+					}
+				}
+			}
+			if j >= len(e) {
+				return true
+			}
+			if !staticIdx.MatchString(strings.TrimSpace(e[i+2 : j])) {
+				return true
+			}
+		}
+	}
+	return false
+}
+
+// BoundIndices applies the generator bound described above.
+func BoundIndices(e string) string {
+	if !hugeLit.MatchString(e) || !hasDynamicIndex(e) {
+		return e
+	}
+	return hugeLit.ReplaceAllString(e, "7")
 }
